@@ -24,10 +24,13 @@ class C26(Prop):
         "horizon with exactly the sent replies in its state); the idle-release decorator aborts the run only at instants at which no step "
         "body is in flight; the control-loop life spans recorded per run id never overlap (at no time two live control loops for one "
         "run) and every release is followed by at most one new control loop before the next release. Non-trivial = a burst of sends "
-        "landed within 0.5 s of a release or at least two concurrent sends hit a released run."
+        "landed within 0.5 s of a release or at least two concurrent sends hit a released run. A third of the cases instead drive the real "
+        "SqliteRunLifecycleLock (the DBOS stack's lifecycle lock, on the real migration DDL) with groups of 1-4 concurrent create / begin_release / "
+        "complete_release / try_begin_resume(crash_timeout) calls over two run ids and virtual sleeps around the crash timeout: every group must be "
+        "explained by some serial order of a 3-state reference model (return values and stored states), and no two resumers of one group are granted ownership."
     )
     assumptions = [
-        "in-process stack only: the DBOS lifecycle lock / DBOSIdleReleaseDecorator need the DBOS engine and Postgres, which cannot be installed here",
+        "the DBOS half is covered only as far as it runs without the DBOS engine: the real SqliteRunLifecycleLock is driven directly (asyncpg is an import-only stand-in); DBOSIdleReleaseDecorator and the Postgres lock need DBOS/Postgres and are not exercised",
         "abort instants are observed by a harness-side wrapper over IdleReleaseDecorator._abort_inner_run; control-loop life spans by a harness-side wrapper over _ControlLoopRunner.run",
         "the number of sends equals the number of replies the workflow needs, so a lost send is decided as 'not completed at the virtual horizon'",
     ]
@@ -36,6 +39,13 @@ class C26(Prop):
 
     def setup(self):
         srv.M()
+        import os
+
+        import llama_agents.dbos.journal.lifecycle as lc
+
+        boot.patch_datetime(lc)
+        self.lc = lc
+        self.lc_ddl = open(os.path.join(boot.REPO, "packages/llama-agents-dbos/src/llama_agents/dbos/_store/sqlite/migrations/0001_init.sql")).read()
 
     def strategy(self, tier):
         @st.composite
@@ -54,10 +64,140 @@ class C26(Prop):
                 "ties": draw(st.lists(st.integers(0, 7), max_size=4)),
             }
 
-        return case()
+        @st.composite
+        def lock_case(draw):
+            op = st.one_of(
+                st.tuples(st.just("create")),
+                st.tuples(st.just("begin_release")),
+                st.tuples(st.just("begin_release")),
+                st.tuples(st.just("complete_release")),
+                st.tuples(st.just("resume"), st.sampled_from([None, 5, 5, 30])),
+                st.tuples(st.just("resume"), st.sampled_from([None, 5, 5, 30])),
+            )
+            steps = []
+            template = [("create",), ("begin_release",), ("complete_release",), ("resume", 5)]
+            guided = draw(st.booleans())
+            for i in range(draw(st.integers(1, 10))):
+                ops = [[draw(st.sampled_from(["r0", "r0", "r1"]))] + list(draw(op)) for _ in range(draw(st.sampled_from([1, 1, 2, 3, 4])))]
+                if guided:  # walk the state machine so that released runs and competing resumers actually occur
+                    ops[0] = ["r0"] + list(template[i % 4])
+                    if i % 4 == 3:
+                        ops.append(["r0", "resume", draw(st.sampled_from([None, 5, 30]))])
+                steps.append({"ops": ops, "sleep": draw(st.sampled_from([0, 0, 1, 4, 6, 31]))})
+            return {"kind": "lock", "steps": steps}
+
+        return st.one_of(case(), case(), lock_case())
+
+    # ------------------------------------------------------------------ DBOS lifecycle lock (real SqliteRunLifecycleLock)
+    def _run_lock_case(self, case):
+        import itertools
+        import os
+        import sqlite3
+
+        r = CaseResult()
+        lc = self.lc
+        obs = []
+
+        async def main():
+            tmp = srv.tmp_root()
+            try:
+                db = os.path.join(tmp, "lc.db")
+                conn = sqlite3.connect(db)
+                conn.executescript(self.lc_ddl)
+                conn.commit()
+                conn.close()
+                lock = lc.SqliteRunLifecycleLock(db)
+
+                async def call(op):
+                    run, name = op[0], op[1]
+                    if name == "create":
+                        return await lock.create(run)
+                    if name == "begin_release":
+                        return await lock.begin_release(run)
+                    if name == "complete_release":
+                        return await lock.complete_release(run)
+                    res = await lock.try_begin_resume(run, crash_timeout_seconds=op[2])
+                    return res.value if res is not None else None
+
+                for stp in case["steps"]:
+                    t = VClock.t
+                    results = await asyncio.gather(*[call(op) for op in stp["ops"]], return_exceptions=True)
+                    rows = {}
+                    c2 = sqlite3.connect(db)
+                    for run_id, state, upd in c2.execute("SELECT run_id, state, updated_at FROM run_lifecycle"):
+                        rows[run_id] = state
+                    c2.close()
+                    obs.append({"t": t, "ops": stp["ops"], "results": [repr(x) if isinstance(x, BaseException) else x for x in results], "rows": rows})
+                    if stp["sleep"]:
+                        await asyncio.sleep(stp["sleep"])
+            finally:
+                srv.cleanup_tmp(tmp)
+
+        boot.run_virtual(main)
+
+        def apply(model, op, t):
+            run, name = op[0], op[1]
+            st_, upd = model.get(run, (None, None))
+            if name == "create":
+                model[run] = ("active", t)
+                return None
+            if name == "begin_release":
+                if st_ == "active":
+                    model[run] = ("releasing", t)
+                    return True
+                return False
+            if name == "complete_release":
+                if st_ == "releasing":
+                    model[run] = ("released", t)
+                return None
+            ct = op[2]
+            if st_ is None or st_ == "active":
+                return None
+            if st_ == "released" or (st_ == "releasing" and ct is not None and t - upd > ct):
+                model[run] = ("active", t)
+                return "released"
+            return "releasing"
+
+        model: dict = {}
+        grants = 0
+        contended = False
+        for o in obs:
+            ok = None
+            n = len(o["ops"])
+            if n > 1:
+                contended = True
+            for perm in itertools.permutations(range(n)):
+                m2 = dict(model)
+                res = [None] * n
+                for i in perm:
+                    res[i] = apply(m2, o["ops"][i], o["t"])
+                if res == o["results"] and {k: v[0] for k, v in m2.items()} == o["rows"]:
+                    ok = m2
+                    break
+            if ok is None:
+                r.v("lifecycle_lock_not_linearizable", ops=[x[1] for x in o["ops"]], results=o["results"], rows=o["rows"], model={k: v[0] for k, v in model.items()})
+                break
+            model = ok
+            grants += sum(1 for x in o["results"] if x == "released")
+            # at most one resumer is granted ownership per group acting on a released run
+            for run in {x[0] for x in o["ops"]}:
+                g = sum(1 for x, res_ in zip(o["ops"], o["results"]) if x[0] == run and res_ == "released")
+                rel = sum(1 for x in o["ops"] if x[0] == run and x[1] in ("complete_release", "begin_release", "create"))
+                if g > 1 and rel == 0:
+                    r.v("two_resumers_granted_ownership", run=run)
+        r.classes.append("kind_lock")
+        if grants:
+            r.classes.append("resume_granted")
+        if contended:
+            r.classes.append("concurrent_callers")
+        r.nontrivial = contended and grants > 0
+        r.sample = {"case": case, "observed": obs[:4]}
+        return r
 
     def run_case(self, case):
         case = json.loads(json.dumps(case))
+        if case.get("kind") == "lock":
+            return self._run_lock_case(case)
         r = CaseResult()
         ge = genwf.M()["ge"]
         I = float(case["idle_timeout"])
